@@ -53,6 +53,8 @@ type ShardResult struct {
 	CapNote      string               `json:"cap_note,omitempty"`
 	HarnessErr   string               `json:"harness_err,omitempty"`
 	Conf         []ConfCase           `json:"conf,omitempty"`
+	// ToolPanic: the first Go panic / crash of the tool met while building a grammar of this check's families
+	ToolPanic string `json:"tool_panic,omitempty"`
 	// ProblemCases: grammars whose emitted code the loader refused (decided by the real compiler in the parent)
 	ProblemCases []ConfCase `json:"problem_cases,omitempty"`
 	confSeen     int
@@ -476,6 +478,16 @@ func runCheck(id, tier string) int {
 	}
 	if chk.Post != nil {
 		chk.Post(tier, merged)
+	}
+	// the tool crashed on grammars of this check's families: not this property's subject (C13's),
+	// but never silent
+	if n := merged.Counters["tool_panic"]; n > 0 && id != "C13" {
+		for _, r := range results {
+			if r.ToolPanic != "" {
+				fmt.Printf("note: pigeon panicked on %d grammars this check enumerates (not run; the tool's totality is property C13), e.g. %s\n", n, r.ToolPanic)
+				break
+			}
+		}
 	}
 	// simplest-first: shortest grammar+input first
 	sort.SliceStable(merged.Violations, func(i, j int) bool {
